@@ -2513,9 +2513,12 @@ func (r *client) Serializer(msg any) remote.Serializer {
 // [dispatchingSerializer] is returned that tries every registered serializer
 // in order during [Serializer.Deserialize] and returns the first success.
 //
-// When message is non-nil the send path is assumed: the first entry whose
-// type matches the message's dynamic type wins (exact concrete type, then
-// interface match). If no entry matches, nil is returned.
+// When message is non-nil the send path is assumed, with the dispatch order
+// documented on [WithClientSerializers]: an entry registered for the
+// message's exact concrete type wins wherever it sits in the table (so it is
+// not shadowed by the proto.Message entry NewClient seeds first); otherwise
+// the first registered interface the message implements is used. If no entry
+// matches, nil is returned.
 //
 // The slice r.serializers is immutable after [NewClient] returns, so no
 // lock is needed.
@@ -2524,17 +2527,18 @@ func (r *client) resolveSerializer(message any) remote.Serializer {
 	if msgType == nil {
 		return r.dispatcher
 	}
+	var byInterface remote.Serializer
 	for i := range r.serializers {
 		entry := &r.serializers[i]
 		if entry.iface.Kind() == reflect.Interface {
-			if msgType.Implements(entry.iface) {
-				return entry.serializer
+			if byInterface == nil && msgType.Implements(entry.iface) {
+				byInterface = entry.serializer
 			}
 		} else if msgType == entry.iface {
 			return entry.serializer
 		}
 	}
-	return nil
+	return byInterface
 }
 
 // newNetClient creates a new net client with connection pooling.
